@@ -247,16 +247,23 @@ PLAN = {
     ),
     "C10": dict(
         level="other",
+        functions=[SIM + "_update_schedules", NET + "station_ids", NET + "add_constraint", CURR + "__add__", NET + "constraint_current"] + SORTFNS,
         bounded=[dict(module="rt.drivers", fn="pair_monitor", label="paired runs: same inputs, permuted stations / constraints / sessions, shifted events, fresh interpreter")],
-        text="BOUNDED: a relation between pairs of runs, checked on the real simulator - every seeded scenario (scripted, uncontrolled, finite-rate greedy and "
-             "round robin, distinct priority keys) is re-run with equal inputs, with permuted station registration order, permuted constraint order, "
-             "permuted session listing order and with all events shifted by k periods; per-station pilots and rates and per-session energies must be "
-             "identical (shifted by k, zero before the shifted origin); a sample of scenarios is re-run in a fresh interpreter and must agree with the "
-             "in-process run (no state leaking between simulations).",
-        note="nothing is proved for C10 itself: it is a 2-safety property over whole runs; the id-keyed postconditions that would give the per-step "
-             "equivariance lemmas (C04 schedule overlay, C06 feasibility, C12 alignment) are themselves only monitored so far; floats are compared exactly",
-        explanation="bounded paired-run monitor only (rt.drivers.pair_monitor)",
-        technique="run-time paired-run monitor on the real simulator (bounded stand-in)",
+        text="The property relates PAIRS of whole runs (2-safety); no single-function contract states it. What contracts can and do decide are the "
+             "order-independence of the individual steps, as id-keyed FUNCTIONAL postconditions - PROVED (no bound): Simulator._update_schedules writes, "
+             "for every station ID, the value the mapping assigns to that id (0 if omitted), so the result does not depend on the order of the "
+             "mapping's entries; ChargingNetwork.add_constraint writes for every registered station its coefficient in the Current, whatever order the "
+             "Current lists its stations in, and Current addition is pointwise; station_ids is the registration order (the only order the matrices "
+             "depend on); constraint_current returns rows in network order whatever order the names are requested in; the five sort functions return a "
+             "permutation ordered by the priority key alone (hence independent of the listing order of sessions with distinct keys); every contract of "
+             "the form result == term over the inputs (C06, C12, C17, C18) is by construction deterministic. BOUNDED: the relation between whole runs - "
+             "equal inputs give identical outputs, permuted station registration / constraint / session order give the same per-station pilots, rates "
+             "and energies, shifting all events by k shifts the outputs by k, no state leaks between simulations (fresh interpreter) - is checked by "
+             "paired runs of the real simulator on seeded scenarios.",
+        note="the whole-run relation itself (composition of the per-step facts along two executions) is only monitored; floats are compared exactly there",
+        explanation="proved: id-keyed / key-ordered functional postconditions of the steps where an incidental order could leak (pyvc/z3); bounded: the 2-safety "
+                    "relation on whole runs (rt.drivers.pair_monitor)",
+        technique="contract-based deductive verification of order-independence per step (id-keyed functional postconditions, pyvc/z3) + run-time paired-run monitor (bounded) for whole runs",
     ),
     "C12": dict(
         level="other",
